@@ -113,9 +113,11 @@ _IX_CACHE = {}
 
 
 def cached_index(key, segs):
-    ix = _IX_CACHE.get(key)
+    # the cache key includes the content: different replayed cases may carry the same name
+    ck = (key, repr(segs))
+    ix = _IX_CACHE.get(ck)
     if ix is None:
-        ix = _IX_CACHE[key] = build_index(segs)
+        ix = _IX_CACHE[ck] = build_index(segs)
     return ix
 
 
@@ -139,6 +141,79 @@ def run_index_unit(unit):
                     if "suggest" in want:
                         for lim in limits:
                             out["suggest"][(w, lim, d, p)] = real_suggest(s, w, lim, d, p)
+                    if "correct" in want:
+                        out.setdefault("correct", {})[(w, d, p)] = real_correct_query(s, w, d, p)
+    return out
+
+
+def _qtext(q):
+    """Text of the single Term a corrected query consists of (or a canonical dump)."""
+    from whoosh import query
+    if isinstance(q, query.Term):
+        return q.text
+    return "Q:" + repr(q)
+
+
+def real_correct_query(searcher, w, d, p, correctors=None):
+    """Searcher.correct_query on the query Term(f, w), four ways:
+      forced  - terms=[(f, w)]: the word is corrected whether or not it is in the index
+      default - terms=None: only words missing from the index are corrected
+      alias   - the query names field "g", aliases={"g": "f"}
+      string  - (words of letters only) the query comes from QueryParser and the corrected
+                query *string* is observed too
+    Each entry is the text of the corrected Term (== w when nothing was corrected) or EXC:..."""
+    from whoosh import query
+    out = {}
+
+    def run(name, q, qstring, **kw):
+        try:
+            c = searcher.correct_query(q, qstring, maxdist=d, prefix=p, correctors=correctors, **kw)
+            res = _qtext(c.query)
+            if qstring is not None:
+                res = (res, c.string)
+            out[name] = res
+        except Exception as e:  # noqa
+            out[name] = exc_name(e)
+    run("forced", query.Term(FIELD, w), None, terms=[(FIELD, w)])
+    run("default", query.Term(FIELD, w), None)
+    run("alias", query.Term("g", w), None, terms=[("g", w)], aliases={"g": FIELD})
+    if w and w.isalpha():
+        from whoosh.qparser import QueryParser
+        q = QueryParser(FIELD, searcher.schema).parse(w)
+        run("string", q, w, terms=[(FIELD, w)])
+    return out
+
+
+def run_corrector_unit(unit):
+    """unit = (key, segs, wordlist, queries, limits) with queries = [(w, [d...], [p...])].
+    ListCorrector(wordlist), MultiCorrector([reader corrector, ListCorrector], op) for op in
+    (min, max), and Searcher.correct_query with correctors={f: ListCorrector(wordlist)}.
+    Returns {"list": {(w,lim,d,p): ...}, "multi-min": {...}, "multi-max": {...}, "cq-list": {(w,d,p): ...}}
+    ("multi-max" is built as documented, MultiCorrector([c1, c2]))."""
+    from whoosh import spelling
+    key, segs, wordlist, queries, limits = unit
+    ix = cached_index(key, segs)
+    out = {"list": {}, "multi-min": {}, "multi-max": {}, "cq-list": {}}
+
+    def sug(c, w, lim, d, p):
+        try:
+            return list(c.suggest(w, limit=lim, maxdist=d, prefix=p))
+        except Exception as e:  # noqa
+            return exc_name(e)
+    with ix.searcher() as s:
+        out["reader"] = type(s.reader()).__name__
+        lc = spelling.ListCorrector(list(wordlist))
+        rc = s.reader().corrector(FIELD)
+        mmin = spelling.MultiCorrector([rc, lc], min)
+        mmax = spelling.MultiCorrector([rc, lc])        # the documented form; op defaults to max
+        for w, ds, ps in queries:
+            for d in ds:
+                for p in ps:
+                    for lim in limits:
+                        out["list"][(w, lim, d, p)] = sug(lc, w, lim, d, p)
+                        out["multi-min"][(w, lim, d, p)] = sug(mmin, w, lim, d, p)
+                        out["multi-max"][(w, lim, d, p)] = sug(mmax, w, lim, d, p)
+                    out["cq-list"][(w, d, p)] = real_correct_query(s, w, d, p, correctors={FIELD: lc})["forced"]
     return out
 
 
